@@ -163,7 +163,16 @@ class Saveable:
         
         
         """
-        return copy.deepcopy(self)
+        new = copy.deepcopy(self)
+        # a copy of a basis-managed object is in the same basis as the 
+        # original; like every object in the basis of a context it has to be
+        # registered there, otherwise it is not transformed back when the 
+        # context is left
+        if hasattr(new, "get_current_basis"):
+            ob = new.get_current_basis()
+            if ob != 0:
+                new.manager.register_with_basis(ob, new)
+        return new
     
     
     def copy(self):
